@@ -393,6 +393,19 @@ Definition run_ev (t : term) (e : zev) : res term :=
   | EvBufErase c r m => on_buf t (fun bf => buf_erase bf (Z.to_nat c) (Z.to_nat r) (erase_of m) (tpen t))
   | EvBufWrap r => on_buf t (fun bf => buf_wrap bf (Z.to_nat r))
   | EvDirtyAdd r => mark t (Z.to_nat r)
+  | EvDirtyResize n => Ok (t <| dirty := dirty_resize (dirty t) (Z.to_nat n) |>)
+  | EvTabsContract c => Ok (t <| tabs := tabs_contract (Z.to_nat c) (tabs t) |>)
+  | EvTabsExpand a b => Ok (t <| tabs := tabs_expand (Z.to_nat a) (Z.to_nat b) (tabs t) |>)
+  | EvSctxCol v => Ok (t <| sctx := (sctx t) <| sc_col := Z.to_nat v |> |>)
+  | EvSctxRow v => Ok (t <| sctx := (sctx t) <| sc_row := Z.to_nat v |> |>)
+  | EvSctxOrg v => Ok (t <| sctx := (sctx t) <| sc_origin := v |> |>)
+  | EvSctxAwm v => Ok (t <| sctx := (sctx t) <| sc_awm := v |> |>)
+  | EvSctxPenSave => Ok (t <| sctx := (sctx t) <| sc_pen := tpen t |> |>)
+  | EvPenRestore => Ok (t <| tpen := sc_pen (sctx t) |>)
+  | EvActive b => Ok (t <| active := b |>)
+  | EvSwapCtx => Ok (t <| sctx := asctx t |> <| asctx := sctx t |>)
+  | EvSwapBuf => Ok (t <| buf := other t |> <| other := buf t |>)
+  | EvBufNewAlt c r => Ok (t <| buf := buffer_new (Z.to_nat c) (Z.to_nat r) (Some 0%N) (Some (tpen t)) |>)
   end.
 
 Definition zput (z : zt) (t : term) : term :=
